@@ -960,8 +960,53 @@ func isInvalid(t types.Type) bool {
 
 // ---------- go / select ----------
 
+// doGo: the spawned body is not followed, but what its contract requires at entry must hold where the
+// goroutine is started (the spawning statement is the only "caller" a goroutine entry point has).
 func (ex *Exec) doGo(st *State, fr *Frame, g *ssa.Go) {
 	ex.note("go statement in " + specName(fr.Fn) + " (spawned body not followed)")
+	if ex.pure != nil {
+		return
+	}
+	c := &g.Call
+	var fn *ssa.Function
+	var args []Value
+	if c.IsInvoke() {
+		return
+	}
+	switch v := ex.val(st, fr, c.Value).(type) {
+	case FuncV:
+		fn = v.Fn
+	case *ClosureV:
+		fn = v.Fn
+	case BoundV:
+		fn = v.Fn
+		args = append(args, v.Recv)
+	}
+	if fn == nil {
+		return
+	}
+	sp := ex.Specs.Funcs[specName(fn)]
+	if sp == nil || len(sp.Requires) == 0 {
+		return
+	}
+	for _, a := range c.Args {
+		args = append(args, ex.val(st, fr, a))
+	}
+	env := ex.calleeEnv(st, sp, fn, fn.Signature, args, "")
+	env.lets = sp.Lets
+	for i, cl := range sp.Requires {
+		// ghost recorders local to the spawned function are initialised by it: clauses about them hold trivially
+		own := false
+		for _, l := range sp.Locals {
+			if strings.Contains(cl.Text, "$"+l.Name) {
+				own = true
+			}
+		}
+		if own {
+			continue
+		}
+		ex.emit(st, "pre", fmt.Sprintf("%s:%s@go:%s", sp.Name, clauseLabel(cl, i), specName(fr.Fn)), ex.evalBool(env, cl.Expr), g.Pos(), mergeProps(sp.Props, cl.Props))
+	}
 }
 
 func (ex *Exec) doSelect(st *State, fr *Frame, s *ssa.Select) {
